@@ -180,6 +180,34 @@ impl RepliconServer {
     }
 }
 
+#[cfg(replicon_verif)]
+impl RepliconServer {
+    /// Sizes the receive storage like [`ServerPlugin`](crate::server::ServerPlugin) does.
+    pub fn verif_setup_client_channels(&mut self, channels_count: usize) {
+        self.setup_client_channels(channels_count);
+    }
+
+    /// Returns the buffered received messages of every channel without draining them.
+    pub fn verif_received(&self) -> Vec<Vec<(Entity, Bytes)>> {
+        self.received_messages.clone()
+    }
+
+    /// Returns the buffered outgoing messages without draining them.
+    pub fn verif_sent(&self) -> Vec<(Entity, usize, Bytes)> {
+        self.sent_messages.clone()
+    }
+
+    /// Drains a channel like the receiving systems do.
+    pub fn verif_receive(&mut self, channel_id: usize) -> Vec<(Entity, Bytes)> {
+        self.receive(channel_id).collect()
+    }
+
+    /// Forgets a client like the disconnect handling does.
+    pub fn verif_remove_client(&mut self, client: Entity) {
+        self.remove_client(client);
+    }
+}
+
 #[cfg(test)]
 mod tests {
     use test_log::test;
